@@ -455,7 +455,10 @@ MANIFEST_TEXT = {
                 "skeleton has no left recursion (no_left_recursion); and the packrat bound is a theorem of the parser model for every token "
                 "list: at most one body execution per (nonterminal, position), misses <= 36*(tokens+1) (packrat_miss_bound), the "
                 "error-recovery scan - the parser's only loop outside the memo table - costs at most 2*(tokens+1) steps per executed body "
-                "(stage1_scans_le_misses, packrat_scan_bound), and the recursion stays within its linear fuel (parse_top_within_fuel). The bound is also checked on the real parser's own miss/scan "
+                "(stage1_scans_le_misses, packrat_scan_bound), and the recursion stays within its linear fuel (parse_top_within_fuel). "
+                "The passes that follow parsing are bounded too, by instrumented copies proved to compute the same results: each "
+                "re-association pass visits every node once, resolution makes at most one call per node, a definition-order walk "
+                "expands each definition at most once (reassociate_cost_bound, resolve_cost_bound, check_definitions_walk_cost). The bound is also checked on the real parser's own miss/scan "
                 "counters over 21 scaling families up to thousands of tokens, well-formed and truncated, together with measured time growth "
                 "per doubling; and the model's counters equal the implementation's on every explored sequence (C07). Time per step is "
                 "measured, not modelled.",
